@@ -770,6 +770,8 @@ class SegmentationImage:
 
         labels = np.atleast_1d(labels)
         if labels.size == 0:
+            if relabel and self.nlabels > 0:
+                self.relabel_consecutive()
             return
 
         dtype = self.data.dtype  # keep the original dtype
